@@ -231,35 +231,26 @@ theorem namespacesInScopeChain_nodup (chain : List Tree) :
 
 /-! ### `namespace_for_prefix`, `is_prefix_defined` -/
 
-/-- `namespace_for_prefix` hides a binding to the no-namespace id. -/
-def realNs (ns : Nat) : Option Nat := if ns == Env.noNamespace then none else some ns
-
 theorem namespaceForPrefixChain_eq_lookup (chain : List Tree) (p : Nat) :
-    namespaceForPrefixChain chain p = ((allDecls chain).lookup p).bind realNs := by
+    namespaceForPrefixChain chain p = ((allDecls chain).lookup p).bind (bindingOf p) := by
   induction chain with
   | nil =>
     simp only [namespaceForPrefixChain, allDecls_nil, basePrefixes, List.lookup_cons, List.lookup_nil]
-    cases p == Env.xmlPrefix <;> simp [realNs, Env.xmlNamespace, Env.noNamespace]
+    by_cases h : p = Env.xmlPrefix
+    · subst h; simp [bindingOf, Env.xmlPrefix, Env.xmlNamespace, Env.emptyPrefix]
+    · have : (p == Env.xmlPrefix) = false := by simpa using h
+      simp [this]
   | cons a rest ih =>
     simp only [namespaceForPrefixChain, allDecls_cons, List.lookup_append, Tree.getNamespace]
     cases h : a.nsDecls.lookup p with
     | none => simp [ih]
-    | some ns => simp [realNs]
+    | some ns => simp [bindingOf, Bool.and_comm]
 
+/-- `namespace_for_prefix` IS the nearest-declaration-wins binding (since /repo debae56: only
+    `xmlns=""` hides). -/
 theorem namespaceForPrefixChain_eq (chain : List Tree) (p : Nat) :
-    namespaceForPrefixChain chain p = (scopeSpecChain chain p).bind realNs := by
+    namespaceForPrefixChain chain p = scopeSpecChain chain p := by
   rw [namespaceForPrefixChain_eq_lookup, scopeSpecChain_eq]
-  cases (allDecls chain).lookup p with
-  | none => rfl
-  | some n =>
-    simp only [Option.bind_some]
-    by_cases h : p = Env.emptyPrefix ∧ n = Env.noNamespace
-    · have hb : ((p == Env.emptyPrefix) && (n == Env.noNamespace)) = true := by simpa using h
-      obtain ⟨h1, h2⟩ := h
-      subst h1; subst h2
-      simp [bindingOf, realNs]
-    · have hb : ((p == Env.emptyPrefix) && (n == Env.noNamespace)) = false := by simpa using h
-      simp [bindingOf, hb]
 
 theorem containsKey_eq (d : List (Nat × Nat)) (p : Nat) : containsKey d p = (d.lookup p).isSome := by
   induction d with
